@@ -116,6 +116,10 @@ def rule_snum(repo, res, an, which=("own", "omni")):
 
 
 def units_token_language(repo, pcls, ctx):
+    return token_fn_language(repo, pcls, ctx, "parse_units")
+
+
+def token_fn_language(repo, pcls, ctx, method):
     """Languages of the token text t = next(tokens) of <pcls>.parse_units: (accepted, refused, probes) where accepted
     = the method returns, refused = it raises / throws into the lexer, and probes = for some sets X of units texts the
     language of t for which the units value handed to the decoder is in X.  The method is read with its helpers in
@@ -125,12 +129,15 @@ def units_token_language(repo, pcls, ctx):
     from .inline import clone
     after = None
     for _ in range(8):
-        defcls, fn = repo.full_resolved(pcls, "parse_units", after)
+        defcls, fn = repo.full_resolved(pcls, method, after)
         if fn is None:
-            raise AnalysisError("anchor vanished: a parse_units that reads the units token")
-        tok = fn.args.args[2].arg if len(fn.args.args) >= 3 else "tokens"
+            raise AnalysisError(f"anchor vanished: a {method} that reads its token")
+        pnames = [a.arg for a in fn.args.args]
+        tok = "tokens" if "tokens" in pnames else pnames[-1]
         if any(isinstance(n, _ast.Call) and norm(n.func) == "next" and n.args and norm(n.args[0]) == tok for n in _ast.walk(fn)):
             break
+        if not any(isinstance(n, _ast.Call) and norm(n.func) == f"super().{method}" for n in _ast.walk(fn)):
+            break              # it neither reads the token nor hands over to its parent: evaluated as it stands
         after = defcls
     fn = clone(fn)
     units_args = []
@@ -166,7 +173,7 @@ def units_token_language(repo, pcls, ctx):
     if len(units_args) == 1 and isinstance(units_args[0], _ast.Name) and isinstance(ev.env.get(units_args[0].id), PE.Derived):
         chain = ev.env[units_args[0].id].chain
         probes = lambda X: PE.pullback(chain, X)
-    return acc, rej, probes, f"{defcls}.parse_units"
+    return acc, rej, probes, f"{defcls}.{method}"
 
 
 def _reader_job(args):
@@ -338,8 +345,49 @@ def _reader_job(args):
             out["units"] = u
         except PE.Unsupported as x:
             out["units"] = {"error": str(x)}
+    # HOOK-LANG: the token in front of which the value repair hook of the parser supplies an empty value
+    if pcls is not None:
+        try:
+            hctx = PE.Ctx(repo, g, dcls)
+            hctx.options["$lenient"] = True          # book-keeping statements (self.errors.append(line)) do not decide the verdict
+            acc, rej, _p, where = token_fn_language(repo, pcls, hctx, "parse_value_post_hook")
+            want = SL.anyof(sorted(set(g.reserved_keywords) | set(g.delimiters)), ic=True)
+            out["hook"] = {"where": where, "extra": _w(acc - want, 4), "missing": _w(want - acc, 4), "accepts_any": not acc.empty()}
+        except PE.Unsupported as x:
+            out["hook"] = {"error": str(x)}
     out["visited"] = sorted(set(rd.ctx.visited))
     return out
+
+
+def rule_hook_lang(repo, res, an):
+    """HOOK-LANG: per pairing, the value repair hook (parse_value_post_hook) supplies an empty value exactly in front of
+    a reserved keyword or a statement delimiter of the grammar (any letter case) -- for the strict parsers the accepted
+    language is empty (E2), for the permissive one it is that set and nothing more: an empty value in front of a
+    bracket, comma or '=' would accept `(1, )` or `a = = 5`."""
+    n = 0
+    for r in an["readers"]:
+        h = r.get("hook")
+        if h is None:
+            continue
+        n += 1
+        cfg = f"{r['config']}: {r['decoder']}/{r['grammar']}"
+        if "error" in h:
+            raise AnalysisError(f"HOOK-LANG {cfg}: {h['error']}")
+        if not h["accepts_any"]:
+            res.oblige("HOOK-LANG", f"{cfg}: {h['where']} supplies no empty value (strict)", ok=True)
+            continue
+        ok = not h["extra"] and not h["missing"]
+        res.oblige("HOOK-LANG", f"{cfg}: {h['where']} supplies an empty value exactly before reserved keywords and statement delimiters", ok=ok)
+        if h["extra"]:
+            res.add(Finding("HOOK-LANG", h["where"], "empty value supplied before other tokens",
+                            f"with {cfg}, parse_value_post_hook supplies an empty value in front of {h['extra']}, which are neither "
+                            "reserved keywords nor statement delimiters: ill-formed text (an empty element of a sequence, a "
+                            "doubled '=') is accepted and patched", witness=h["extra"][0], where="pvl/parser.py"))
+        if h["missing"]:
+            res.add(Finding("HOOK-LANG", h["where"], "no empty value before a keyword / delimiter",
+                            f"with {cfg}, parse_value_post_hook does not supply an empty value in front of {h['missing']}",
+                            witness=h["missing"][0], where="pvl/parser.py"))
+    res.floor("HOOK-LANG pairings", n, 5)
 
 
 def rule_units_lang(repo, res, an):
